@@ -55,7 +55,8 @@ SPECS = [
 ]
 HOT = (['__setitem__'] * 4 + ['__getitem__'] * 3 + ['request'] * 4 + ['__exit__'] * 3 + ['__enter__'] * 2 + ['closure'] * 2 +
        ['reply_elements', 'process', 'produce', 'route', 'setup', 'resolve', 'lookup', 'post_process_closure'])
-LINE_FILES = ('server/enip/device.py', 'server/enip/logix.py', 'server/enip/ucmm.py')
+LINE_FILES = ('server/enip/device.py', 'server/enip/logix.py', 'server/enip/ucmm.py', 'server/enip/parser.py')
+# (parser.py: the produce side -- typed data is encoded element by element there, after the request was processed)
 
 
 @st.composite
@@ -71,6 +72,8 @@ def request(draw, sess):
 def cases(draw):
     n = draw(st.integers(2, 3))
     sessions = [draw(st.lists(request(i), min_size=1, max_size=4)) for i in range(n)]
+    if draw(st.integers(0, 3)) == 0:
+        sessions[draw(st.integers(0, n - 1))].append({'kind': 'bad'})       # one session ends with an unparsable request
     npre = draw(st.integers(0, 5))
     ks = st.one_of(st.integers(1, 40), st.integers(1, 400), st.integers(1, 4000), st.integers(1, 12000))
     hot = st.sampled_from(HOT)
@@ -156,6 +159,17 @@ def run_schedule(case):
             if inside:
                 sess.register(machine=machines[i])
             for rq in case['sessions'][i]:
+                if rq['kind'] == 'bad':
+                    # an unparsable request (Read Tag cut before its element count is complete): this session is refused and ends;
+                    # the other sessions must not notice
+                    msg = rc.req_read_tag([{'symbolic': 'S'}], 6)[:-1]
+                    ctx = sess.context()
+                    inv = sched.now()
+                    kind, rpy = dev.process(sess.addr, rc.rr_frame(sess.handle, rc.unconnected_send(msg), ctx), machine=machines[i])
+                    with hlock:
+                        history.append({'sess': i, 'inv': inv, 'resp': sched.now(), 'bad': True, 'kind': kind, 'metas': [], 'bundle': False, 'ctx': ctx.hex(),
+                                        'raw': rpy if kind == 'reply' else None})
+                    break
                 kinds = rq['members'] if rq['kind'] == 'bundle' else [rq['kind']]
                 msgs, metas = [], []
                 for k in kinds:
@@ -309,7 +323,7 @@ def pred_schedule(case, stats):
     if None not in handles and len(set(handles)) != len(handles):
         fail('sessions-open-at-once-share-a-session-handle', {'handles': handles}, 'every open session has its own session handle')
     # expected number of records
-    want = sum(len(s) for s in case['sessions'])
+    want = sum((next((k + 1 for k, rq in enumerate(s_) if rq['kind'] == 'bad'), len(s_))) for s_ in case['sessions'])
     if len(hist) != want and not sched.deadlock and not out['errors']:
         fail('missing-or-duplicated-reply', {'records': len(hist), 'requests': want}, 'one reply per request')
     ops = []
@@ -318,6 +332,10 @@ def pred_schedule(case, stats):
     latest_own_range = {}
     hist_sorted = sorted(hist, key=lambda r: (r['sess'], r['inv']))
     for rec in hist_sorted:
+        if rec.get('bad'):
+            if rec['kind'] == 'reply' and rc.dec_encap(rec['raw'])['status'] == 0:
+                fail('unparsable-request-answered-with-success', {'session': rec['sess']}, 'an error status or a closed session')
+            continue
         problems, results = decode_record(rec, out['sessions'][rec['sess']].handle)
         for sig, d in problems:
             fail(sig, dict(d, session=rec['sess']), 'every session receives replies only to its own requests, all well-formed')
@@ -529,19 +547,47 @@ def stress_round(job):
                 problems.append(('HARNESS', '%s: %s' % (type(exc).__name__, str(exc)[:200])))
 
     same_port_pair(srv, s, case)
+    stop_hostile = threading.Event()
+
+    def hostile():
+        # sessions whose requests cannot be parsed (a Read Tag cut before its element count is complete): each is refused and its
+        # connection closed; the well-formed sessions running at the same time must not notice
+        bad = rc.unconnected_send(rc.req_read_tag([{'symbolic': 'S'}], 40)[:-1])
+        n = 0
+        while not stop_hostile.is_set() and n < 400:
+            n += 1
+            try:
+                h = sim.TcpSession(srv, timeout=10.0)
+                h.sock.sendall(rc.rr_frame(h.handle, bad, b'hostile\0'))
+                sim.recv_until_eof(h.sock, 10.0)
+                h.close()
+            except Exception:
+                pass
+        with plock:
+            hostile_count.append(n)
+
+    hostile_count = []
     try:
         ts = [threading.Thread(target=client, args=(i,), daemon=True) for i in range(nthreads)]
+        hs = [threading.Thread(target=hostile, daemon=True) for _ in range(2)]
+        for t in hs:
+            t.start()
         for t in ts:
             t.start()
         for t in ts:
             t.join(120)
+        stop_hostile.set()
+        for t in hs:
+            t.join(30)
     finally:
+        stop_hostile.set()
         sys.setswitchinterval(old)
     harness = [p for p in problems if p[0] == 'HARNESS']
     if harness:
         raise common.HarnessError('engine B: %r' % (harness[0][1],))
     s.case(case, nontrivial=True, classes=['engineB:round'])
     s.count('engineB:requests', nthreads * nreq)
+    s.count('engineB:unparsable-requests-from-hostile-sessions', sum(hostile_count))
     if len(handles) == 3 * nthreads and len(set(handles)) != len(handles):
         problems.append(('tcp:sessions-open-at-once-share-a-session-handle', {'handles': sorted(handles)[:12]}))
     for sig, d in problems:
@@ -587,7 +633,23 @@ def sweep_shard(job):
     return s
 
 
+SWEEP2_SCENARIO = {'sessions': [[{'kind': 'bad'}], [{'kind': 'rs'}]]}
+
+
+def sweep2_shard(job):
+    """Two preemptions: session 0 (whose request cannot be parsed) is preempted at the k-th line executed inside a parser's
+    __exit__, session 1 runs m line events of its own (valid) request, session 0 resumes and finishes, session 1 finishes."""
+    _, pairs = job
+    s = Stats()
+    for k, m in pairs:
+        case = dict(SWEEP2_SCENARIO, schedule=[['fn', '__exit__', k, 1], ['line', m, 0]])
+        common.run_pred(pred_schedule, case, s, 'schedule')
+    return s
+
+
 def shard(job):
+    if job[0] == 'sweep2':
+        return sweep2_shard(job)
     if job[0] == 'sweep':
         return sweep_shard(job)
     if job[0] == 'B':
@@ -611,7 +673,7 @@ def run(tier, seed):
     stats = Stats()
     m = common.parallel(measure_sweeps, [0], fork=True)
     lengths = m.extra['sweep_lengths']
-    scenarios = range(len(SWEEP_SCENARIOS)) if tier == 'thorough' else [0, 4, 5]
+    scenarios = range(len(SWEEP_SCENARIOS)) if tier == 'thorough' else [0, 1, 4, 5]
     jobs = []
     for si in scenarios:
         # thread 0's own share of the line events is at most the whole run's; preempting later than that is a no-op
@@ -621,6 +683,12 @@ def run(tier, seed):
         stats.exhaustive['single-preemption sweep, scenario %d' % si] = (
             'thread 0 preempted after every %snumber n of line events in 1..%d of device.py/logix.py/ucmm.py/lock handling, '
             'thread 1 runs to completion, thread 0 resumes' % ('' if tier == 'thorough' else 'second ', lengths[si] // 2 + 199))
+    mstep = 20 if tier == 'thorough' else 90
+    pairs = [(k, m) for k in range(1, 49) for m in range(1, 2600, mstep)]
+    jobs += [('sweep2', pairs[i::32]) for i in range(32)]
+    stats.exhaustive['two-preemption sweep (unparsable request vs. valid request)'] = (
+        'session 0 preempted at the k-th line inside a parser __exit__ (k = 1..48), session 1 then runs m line events (m = 1, %d, ... < 2600), '
+        'session 0 finishes, session 1 finishes' % (1 + mstep))
     if tier == 'thorough':
         jobs += [('A', seed, i, 120) for i in range(28)] + [('B', seed, 40), ('B', seed + 1, 40)]
     else:
